@@ -5,7 +5,7 @@ import itertools
 
 import numpy as np
 
-from .common import And, Case, Not, Or, all_close, all_exact, call, close, elements, exact_eq, payload, vabs
+from .common import And, Case, Not, Or, all_close, all_exact, call, check_names, close, elements, exact_eq, payload, vabs
 
 LEVEL = "other"
 MANIFEST = dict(
@@ -14,7 +14,11 @@ MANIFEST = dict(
           "pair (and triple) of member dimensions, every entry point and enumerated table units, z3 proves for ALL real values "
           "in the formula's domain (and all mu, gamma > 0) that the SI result equals the closed-form formula, that "
           "there-and-back is the identity, via-intermediate equals direct, copy forms leave the input untouched, in-place "
-          "forms equal copy forms, and uncovered requests raise InvalidUnitEquivalence. Unit scales are concrete table units."),
+          "forms equal copy forms, and uncovered requests raise InvalidUnitEquivalence. Input unit scales are concrete table units; the "
+          "target may be a user-defined unit whose scale is a z3 real (all positive scales at once). The same battery is re-proved "
+          "after every enumerated history of 1-3 earlier requests in one process state (successful, refused and failing copying / "
+          "in-place requests, on the same and on a sibling equivalence). The dtype axis (all integer widths, float32; array and 0-d "
+          "quantity) runs on real typed buffers with enumerated values: there only the target scale and mu, gamma are symbolic."),
     design="DESIGN.md section 4 C09",
     technique="symbolic execution of the real Python code over z3 real terms; SMT (QF_NRA, root witnesses) obligations per path; counterexample replay")
 EXPLANATION = (
@@ -24,21 +28,47 @@ EXPLANATION = (
     "constrained to the formula's domain. Per path z3 decides pc & not(P) for: SI(result) == closed-form formula with constants read "
     "from unyt.physical_constants (roots stated implicitly: y>=0 & y^2 == radicand, sigma*T^4 == F), result unit == requested unit, "
     "all entry points agree, there-and-back == input, via-intermediate == direct, input elements/unit untouched by copy forms, "
-    "in-place == copy. Uncovered (from,to) requests must raise InvalidUnitEquivalence on every entry point."
+    "in-place == copy. Uncovered (from,to) requests must raise InvalidUnitEquivalence on every entry point. "
+    "Three further axes: (1) target unit = a user-defined unit of the target dimension whose scale is a z3 real > 0 (copying and "
+    "in-place forms; the SI result term is value * scale symbol). (2) call histories: 1, 2 or 3 earlier requests of 16 kinds "
+    "(copying / in-place / direct Equivalence(in_place=True).convert, forward and backward, has_equivalent queries; refused: uncovered "
+    "target inside convert(), source without the equivalence; failing inside the chain: unexpected keyword, read-only buffer, degC "
+    "input) on the same or a sibling equivalence run in ONE path (caches and module state are reset only at path start), then the "
+    "whole battery must hold as in a fresh process; refused steps must raise InvalidUnitEquivalence and leave their operand "
+    "untouched. (3) dtype: the payload is a real NumPy buffer of an integer dtype (8 widths/signs) or float32, as array and as 0-d "
+    "quantity, with values over the decades the dtype (and its square / fourth power where the formula has one) holds exactly: the "
+    "integer loops of multiply/power/reciprocal and the casts of out= buffers run as in production; copying forms are checked "
+    "against the formula for all target scales and all mu, gamma, must leave dtype, bytes and unit of the input untouched; in-place "
+    "forms on 8-byte buffers must equal the copying form and the formula (concrete table target, mu = 1.25, gamma = 1.5)."
 )
 BOUNDS = {
     "quick": "9 equivalences x all ordered dimension pairs x a covering subset of input/target table units x 9 entry points; "
-             "scalar and 2-element payloads; selected triples of spectral and sound_speed; uncovered-request matrix on one unit per dimension",
+             "scalar and 2-element payloads; selected triples of spectral and sound_speed; uncovered-request matrix on one unit per dimension; "
+             "symbolic-scale target: every ordered pair x 1 input unit x 8 entry points; histories: every step kind once on the same and "
+             "once on a sibling equivalence for all 9 equivalences (probed direction/units rotate), all 256 ordered pairs of step kinds for "
+             "thermal and a rotating 1/16 slice of them for the other 8, 98 three-step histories (failing in-place request first) for thermal; "
+             "dtype: {int64, int32, uint8, float32, uint64} x every ordered pair (int64: every unit of the cover, others rotate) x "
+             "{array of <= 5 values, 0-d quantity} (int64 both, the others alternate) x 5 copying entries and there-and-back (+ 3 in-place entries for 8-byte dtypes)",
     "thorough": "9 equivalences x all ordered dimension pairs x all enumerated input x target table units (3-4 per dimension) x 9 entry "
-                "points x scalar and 2-element payloads; all ordered triples of spectral and sound_speed; full uncovered-request matrix",
+                "points x scalar and 2-element payloads; all ordered triples of spectral and sound_speed; full uncovered-request matrix; "
+                "symbolic-scale target: every ordered pair x every input unit x both shapes; histories: every step kind on same/sibling "
+                "equivalence x up to 4 ordered pairs, all 256 ordered pairs of step kinds for thermal and number_density and the 49 pairs of "
+                "the 7 core kinds for the other seven, all 343 three-step histories of the core kinds for thermal and 98 for mass_energy, "
+                "number_density; dtype: 8 integer dtypes + float32 x every ordered pair ({int64, int32, uint8, float32}: every unit of "
+                "the cover, the other five rotate through it)",
 }
-OUTSIDE = ("IEEE rounding/overflow (A1: e.g. gamma-1 underflow for v << c); integer/complex payloads; unit scales are concrete table units "
+OUTSIDE = ("IEEE rounding/overflow (A1: e.g. gamma-1 underflow for v << c); the INPUT unit's scale is a concrete table value "
            "(the _convert bodies cancel same-dimension units through sympy, which cannot hold z3 terms); values outside the formula's domain "
            "(negative temperatures/masses, v >= c, gamma < 1); direct calls of Equivalence.convert with new_dims equal to the input's own "
-           "dimensions (not reachable through the public entry points, which short-cut same-dimension requests)")
-CONFORM = {"quick": 24, "thorough": 64}
+           "dimensions (not reachable through the public entry points, which short-cut same-dimension requests); dtype axis: the VALUES of "
+           "typed buffers are an enumeration over decades (a typed buffer cannot hold a term), integers whose square / fourth power "
+           "overflows their dtype, in-place requests on buffers narrower than 8 bytes (they become float32/float16, whose range the "
+           "constants exceed; 1-byte buffers have no float of their size), float16, complex, bool, longdouble payloads; histories longer "
+           "than 3 earlier requests or mixing more than two equivalences; state carried across processes or threads")
+CONFORM = {"quick": 48, "thorough": 96}
 ASSUMPTIONS = [
-    "C09: unit scales are the concrete table values (value symbols are written as SI magnitude / scale); the SI magnitude of a result is value * Unit.base_value (minus base_offset for degC/degF targets), read from the Unit object, never through unyt's conversion code",
+    "C09: input unit scales are the concrete table values (value symbols are written as SI magnitude / scale); the SI magnitude of a result is value * Unit.base_value (minus base_offset for degC/degF targets), read from the Unit object, never through unyt's conversion code; for the user-defined target unit it is value * the scale symbol the harness registered",
+    "C09: typed (integer, float32) payloads carry enumerated values; the 1e-6 band of the obligations covers the float64 rounding of the real run (float32 inputs: the rounding of their own 4-byte intermediates, values chosen exactly representable)",
     "C09: the constants of the closed-form oracle are read from unyt.physical_constants at run time as value * unit scale",
     "C09: lorentz obligations grant the 1e-6 band either to the value or to its image (forward or backward error): gamma(v) for v -> c and v(gamma) for gamma -> 1 have unbounded condition numbers, so the float rounding of a unit factor (e.g. 0.01 for percent) is amplified without bound in exact arithmetic",
     "C09: an input on an offset temperature scale (degC, degF) may be refused with a unit exception (the formulas are documented for absolute scales); a returned value must be the formula of the absolute temperature",
@@ -170,12 +200,12 @@ def same_values(eq, da, got, want, s, K):
     return And(*out)
 
 
-def input_symbols(ctx, eq, da, shape, K):
+def input_symbols(ctx, eq, da, shape, K, prefix="x"):
     """payload symbols in SI-like natural magnitude, constrained to the formula's domain; returns the SI magnitudes"""
     n = int(np.prod(shape)) if shape else 1
     out = []
     for i in range(n):
-        nm = f"x_{i}"
+        nm = f"{prefix}_{i}"
         if eq == "lorentz" and da == "velocity":
             # 0 <= v < c, written v = c*(1-d), 0 < d <= 1
             d = ctx.real(nm, pos=True, hi=1)
@@ -284,69 +314,76 @@ def shape_tag(shape):
     return "shape" + ("x".join(map(str, shape)) or "0")
 
 
+def pair_battery(ctx, eq, da, db, ua, ub, shape):
+    """every obligation of one (equivalence, ordered dimension pair, input unit, target unit, shape) configuration: all copying and
+    in-place entry points against the closed form, purity, in-place == copy, there-and-back, same-dimension requests.
+    Called on a fresh process state by the pair cases and AFTER a prefix of other calls by the call-history cases."""
+    mods = ctx.mods
+    K = consts(mods)
+    kw = kwargs_for(ctx, eq)
+    mu, gamma = kw.get("mu"), kw.get("gamma")
+    X = input_symbols(ctx, eq, da, shape, K)
+    q, xs, sa = make_quantity(ctx, X, ua, shape)
+    sb = float(mods["unyt"].Unit(ub).base_value)
+    u_before = q.units
+    d_before = q.d
+    check_listing(ctx, q, da)
+    si_in = [v * sa for v in xs]
+    ref = None
+    for e in COPY_ENTRIES:
+        vals, u, r = run_entry(ctx, q, ub, eq, kw, e)
+        ctx.require(f"returns a value/{e}", vals is not None and len(vals) == len(xs))
+        if vals is None:
+            continue
+        ctx.observe(f"{e}", vals)
+        ctx.require(f"formula/{e}", And(*[formula_holds(eq, da, db, xi, y * sb, K, mu, gamma) for xi, y in zip(si_in, vals)]), entry=e)
+        if u is not None:
+            ctx.require(f"unit/{e}", unit_is(ctx, u, ub), got=str(u))
+            ctx.require(f"fresh object/{e}", r is not q)
+        if ref is None:
+            ref = vals
+        else:
+            ctx.require(f"entry points agree/{e}", all_close(vals, ref))
+        # purity of the copying form
+        ctx.require(f"input untouched/{e}", And(all_exact(payload(q), xs), q.units is u_before, unit_is(ctx, q.units, ua), all_exact(elements(d_before), xs)))
+    # in-place forms on copies
+    for e in INPLACE_ENTRIES:
+        c = q.copy()
+        vals, u, r = run_entry(ctx, c, ub, eq, kw, e)
+        ctx.require(f"returns a value/{e}", vals is not None and len(vals) == len(xs))
+        if vals is None:
+            continue
+        ctx.observe(f"{e}", vals)
+        ctx.require(f"in-place is in place/{e}", r is c)
+        ctx.require(f"in-place == copy numbers/{e}", all_close(payload(c), ref), entry=e)
+        ctx.require(f"in-place == copy unit/{e}", unit_is(ctx, c.units, ub), got=str(c.units))
+        ctx.require(f"formula/{e}", And(*[formula_holds(eq, da, db, xi, y * sb, K, mu, gamma) for xi, y in zip(si_in, payload(c))]), entry=e)
+        ctx.require(f"input untouched/{e}", And(all_exact(payload(q), xs), q.units is u_before))
+    # there and back
+    there = q.to_equivalent(ub, eq, **kw)
+    back = there.to_equivalent(ua, eq, **kw)
+    ctx.require("there-and-back", And(same_values(eq, da, payload(back), xs, sa, K), unit_is(ctx, back.units, ua)))
+    ctx.observe("back", payload(back))
+    c = q.copy()
+    c.convert_to_equivalent(ub, eq, **kw)
+    c.convert_to_equivalent(ua, eq, **kw)
+    ctx.require("there-and-back in place", And(same_values(eq, da, payload(c), xs, sa, K), unit_is(ctx, c.units, ua)))
+    # same-dimension request with an equivalence named: plain conversion, and the base-system forms
+    same = q.to_equivalent(ua, eq, **kw)
+    ctx.require("same unit request is the identity", And(all_close(payload(same), xs), unit_is(ctx, same.units, ua), same is not q))
+    for fn, tgt in (("convert_to_base", None), ("convert_to_cgs", "cgs"), ("convert_to_mks", "mks")):
+        c = q.copy()
+        getattr(c, fn)(equivalence=eq, **kw)
+        want_u = q.units.get_base_equivalent(tgt) if tgt else q.units.get_base_equivalent()
+        sw = float(want_u.base_value)
+        ctx.require(f"{fn}(equivalence=) keeps the physical value", And(*[close(y * sw, xi) for xi, y in zip(si_in, payload(c))]))
+        ctx.require(f"{fn}(equivalence=) unit", c.units == want_u and c.units.dimensions == u_before.dimensions)
+    ctx.require("input untouched", And(all_exact(payload(q), xs), q.units is u_before, unit_is(ctx, q.units, ua)))
+
+
 def make_pair_case(eq, da, db, ua, ub, shape):
     def h(ctx):
-        mods = ctx.mods
-        K = consts(mods)
-        kw = kwargs_for(ctx, eq)
-        mu, gamma = kw.get("mu"), kw.get("gamma")
-        X = input_symbols(ctx, eq, da, shape, K)
-        q, xs, sa = make_quantity(ctx, X, ua, shape)
-        sb = float(mods["unyt"].Unit(ub).base_value)
-        u_before = q.units
-        d_before = q.d
-        check_listing(ctx, q, da)
-        si_in = [v * sa for v in xs]
-        ref = None
-        for e in COPY_ENTRIES:
-            vals, u, r = run_entry(ctx, q, ub, eq, kw, e)
-            ctx.require(f"returns a value/{e}", vals is not None and len(vals) == len(xs))
-            if vals is None:
-                continue
-            ctx.observe(f"{e}", vals)
-            ctx.require(f"formula/{e}", And(*[formula_holds(eq, da, db, xi, y * sb, K, mu, gamma) for xi, y in zip(si_in, vals)]), entry=e)
-            if u is not None:
-                ctx.require(f"unit/{e}", unit_is(ctx, u, ub), got=str(u))
-                ctx.require(f"fresh object/{e}", r is not q)
-            if ref is None:
-                ref = vals
-            else:
-                ctx.require(f"entry points agree/{e}", all_close(vals, ref))
-            # purity of the copying form
-            ctx.require(f"input untouched/{e}", And(all_exact(payload(q), xs), q.units is u_before, unit_is(ctx, q.units, ua), all_exact(elements(d_before), xs)))
-        # in-place forms on copies
-        for e in INPLACE_ENTRIES:
-            c = q.copy()
-            vals, u, r = run_entry(ctx, c, ub, eq, kw, e)
-            ctx.require(f"returns a value/{e}", vals is not None and len(vals) == len(xs))
-            if vals is None:
-                continue
-            ctx.observe(f"{e}", vals)
-            ctx.require(f"in-place is in place/{e}", r is c)
-            ctx.require(f"in-place == copy numbers/{e}", all_close(payload(c), ref), entry=e)
-            ctx.require(f"in-place == copy unit/{e}", unit_is(ctx, c.units, ub), got=str(c.units))
-            ctx.require(f"formula/{e}", And(*[formula_holds(eq, da, db, xi, y * sb, K, mu, gamma) for xi, y in zip(si_in, payload(c))]), entry=e)
-            ctx.require(f"input untouched/{e}", And(all_exact(payload(q), xs), q.units is u_before))
-        # there and back
-        there = q.to_equivalent(ub, eq, **kw)
-        back = there.to_equivalent(ua, eq, **kw)
-        ctx.require("there-and-back", And(same_values(eq, da, payload(back), xs, sa, K), unit_is(ctx, back.units, ua)))
-        ctx.observe("back", payload(back))
-        c = q.copy()
-        c.convert_to_equivalent(ub, eq, **kw)
-        c.convert_to_equivalent(ua, eq, **kw)
-        ctx.require("there-and-back in place", And(same_values(eq, da, payload(c), xs, sa, K), unit_is(ctx, c.units, ua)))
-        # same-dimension request with an equivalence named: plain conversion, and the base-system forms
-        same = q.to_equivalent(ua, eq, **kw)
-        ctx.require("same unit request is the identity", And(all_close(payload(same), xs), unit_is(ctx, same.units, ua), same is not q))
-        for fn, tgt in (("convert_to_base", None), ("convert_to_cgs", "cgs"), ("convert_to_mks", "mks")):
-            c = q.copy()
-            getattr(c, fn)(equivalence=eq, **kw)
-            want_u = q.units.get_base_equivalent(tgt) if tgt else q.units.get_base_equivalent()
-            sw = float(want_u.base_value)
-            ctx.require(f"{fn}(equivalence=) keeps the physical value", And(*[close(y * sw, xi) for xi, y in zip(si_in, payload(c))]))
-            ctx.require(f"{fn}(equivalence=) unit", c.units == want_u and c.units.dimensions == u_before.dimensions)
-        ctx.require("input untouched", And(all_exact(payload(q), xs), q.units is u_before, unit_is(ctx, q.units, ua)))
+        pair_battery(ctx, eq, da, db, ua, ub, shape)
 
     return Case(f"C09/{eq}/{da}>{db}/{ua}>{ub}/{shape_tag(shape)}", h, bounds="symbolic: value(s), mu, gamma; concrete table units",
                 budget_s=1800 if eq in NONLINEAR else 600, weight=20 if eq == "lorentz" else (5 if eq in NONLINEAR else 1))
@@ -571,10 +608,332 @@ def make_offset_input_case(eq, db, ua, ub, shape):
     return Case(f"C09/offset-input/{eq}/temperature>{db}/{ua}>{ub}/{shape_tag(shape)}", h, bounds="symbolic: absolute temperature >= 0, mu, gamma")
 
 
+# --------------------------------------------------------------------------- call histories (state carried between requests)
+
+# an equivalence that shares a member dimension with the key (a defect may keep state per class, per name or for all equivalences)
+SIBLING = {"thermal": "sound_speed", "spectral": "thermal", "mass_energy": "schwarzschild", "lorentz": "sound_speed",
+           "schwarzschild": "compton", "compton": "mass_energy", "number_density": "thermal", "sound_speed": "thermal",
+           "effective_temperature": "thermal"}
+NONMEMBER = ("time", "s")  # a dimension no equivalence relates: the uncovered target / the source without any equivalence
+
+# step kinds of a history. ok = the request is covered and must succeed; refused = must raise InvalidUnitEquivalence and leave its
+# operand untouched; fault = an exception raised INSIDE Equivalence.convert / the ufunc chain (its class is not judged here)
+STEP_KINDS = {
+    "copy": "ok", "copy-back": "ok", "inplace": "ok", "inplace-ctu": "ok", "inplace-back": "ok", "direct-inplace": "ok", "query": "ok",
+    "copy-refused": "refused", "inplace-refused": "refused", "inplace-refused-ctu": "refused", "inplace-nosource": "refused",
+    "direct-inplace-refused": "refused",
+    "inplace-badkw": "fault", "inplace-readonly": "fault", "copy-badkw": "fault", "inplace-degC": "fault",
+}
+CORE_KINDS = ["copy", "inplace", "inplace-refused", "copy-refused", "direct-inplace", "inplace-badkw", "query"]
+
+
+def kinds_for(seq):
+    return [k for k in STEP_KINDS if k != "inplace-degC" or "temperature" in EQ_DIMS[seq]]
+
+
+def run_step(ctx, i, kind, seq, K):
+    """one earlier request of a history, on its own fresh operand (symbolic value in the formula's domain)"""
+    mods = ctx.mods
+    unyt = mods["unyt"]
+    IUE = unyt.exceptions.InvalidUnitEquivalence
+    da, db = EQ_DIMS[seq][0], EQ_DIMS[seq][1]
+    if kind in ("copy-back", "inplace-back"):
+        da, db = db, da
+    ua, ub = UNITS[da][0], UNITS[db][0]
+    kw = {k: ctx.real(f"s{i}_{k}", pos=True) for k in EQ_KW.get(seq, [])}
+    if kind == "inplace-nosource":
+        q, xs, _ = make_quantity(ctx, [ctx.real(f"s{i}_0", pos=True)], NONMEMBER[1], ())
+    elif kind == "inplace-degC":
+        t = ctx.real(f"s{i}_0", lo=0)
+        q = ctx.quantity(t if ctx.symbolic else float(t), "degC")
+        xs = [t]
+        da, ua = "temperature", "degC"
+        db = [d for d in EQ_DIMS[seq] if d != "temperature"][0]
+        ub = UNITS[db][0]
+    else:
+        q, xs, _ = make_quantity(ctx, input_symbols(ctx, seq, da, (), K, prefix=f"s{i}"), ua, ())
+    u0 = q.units
+    tgt_dims = dim_obj(mods, db)
+    bad_dims = dim_obj(mods, NONMEMBER[0])
+    E = mods["UE"].equivalence_registry[seq]
+    label = f"step{i} {kind}"
+    if kind in ("copy", "copy-back"):
+        r = call(q.to_equivalent, ub, seq, **kw)
+    elif kind in ("inplace", "inplace-back"):
+        r = call(q.convert_to_equivalent, ub, seq, **kw)
+    elif kind == "inplace-ctu":
+        r = call(q.convert_to_units, ub, equivalence=seq, **kw)
+    elif kind == "direct-inplace":
+        r = call(E(in_place=True).convert, q, tgt_dims, **kw)
+    elif kind == "query":
+        r = call(lambda: (q.has_equivalent(seq), q.units.has_equivalent(seq), unyt.Unit(NONMEMBER[1]).has_equivalent(seq)))
+        ctx.require(f"{label}: has_equivalent", r[0] == "ok" and r[1] == (True, True, False), got=str(r[1]))
+        buf = io.StringIO()
+        with contextlib.redirect_stdout(buf):
+            q.list_equivalencies()
+        return
+    elif kind == "copy-refused":
+        r = call(q.to_equivalent, NONMEMBER[1], seq, **kw)
+    elif kind == "inplace-refused":
+        r = call(q.convert_to_equivalent, NONMEMBER[1], seq, **kw)
+    elif kind == "inplace-refused-ctu":
+        r = call(q.convert_to_units, NONMEMBER[1], equivalence=seq, **kw)
+    elif kind == "inplace-nosource":
+        r = call(q.convert_to_equivalent, ub, seq, **kw)
+    elif kind == "direct-inplace-refused":
+        r = call(E(in_place=True).convert, q, bad_dims, **kw)
+    elif kind == "inplace-badkw":
+        r = call(q.convert_to_equivalent, ub, seq, no_such_keyword=1.0, **kw)
+    elif kind == "copy-badkw":
+        r = call(q.to_equivalent, ub, seq, no_such_keyword=1.0, **kw)
+    elif kind == "inplace-readonly":
+        q.flags.writeable = False
+        r = call(q.convert_to_equivalent, ub, seq, **kw)
+    elif kind == "inplace-degC":
+        r = call(q.convert_to_equivalent, ub, seq, **kw)
+    else:
+        raise KeyError(kind)
+    want = STEP_KINDS[kind]
+    if want == "ok":
+        ctx.require(f"{label}: a covered request succeeds", r[0] == "ok", got=repr(r[1])[:160])
+    elif want == "refused":
+        ctx.require(f"{label}: raises InvalidUnitEquivalence", r[0] == "raise" and isinstance(r[1], IUE), got=repr(r[1])[:160])
+        ctx.require(f"{label}: refused request leaves its operand untouched", And(all_exact(payload(q), xs), q.units is u0))
+    else:
+        ctx.observe(label, r[0] if r[0] == "ok" else type(r[1]).__name__)
+
+
+def make_call_history_case(eq, da, db, ua, ub, steps, shape=()):
+    """history independence of the whole battery: `steps` (kind, equivalence) are earlier requests made in the SAME process state
+    (caches and any module-level state are only reset at the start of a path); afterwards every obligation of the pair case must
+    hold exactly as in a fresh process - in particular the copying forms must still leave their input untouched after an in-place
+    request that failed half-way, and an in-place request must still be in place after copying ones."""
+    def h(ctx):
+        K = consts(ctx.mods)
+        for i, (kind, seq) in enumerate(steps):
+            run_step(ctx, i, kind, seq, K)
+        pair_battery(ctx, eq, da, db, ua, ub, shape)
+
+    tag = "+".join(k if seq == eq else f"{k}@{seq}" for k, seq in steps)
+    return Case(f"C09/after/{tag}/{eq}/{da}>{db}/{ua}>{ub}/{shape_tag(shape)}", h,
+                bounds=f"symbolic: value(s), mu, gamma of every request; {len(steps)} earlier request(s) in one history",
+                budget_s=1800 if eq in NONLINEAR else 600, weight=20 if eq == "lorentz" else (5 if eq in NONLINEAR else 1))
+
+
+# --------------------------------------------------------------------------- dtype axis: real typed buffers (integers, float32)
+
+INT_DTYPES = ["int64", "int32", "uint8", "uint64", "int16", "uint32", "int8", "uint16"]
+TYPED_DTYPES = INT_DTYPES[:3] + ["float32"] + INT_DTYPES[3:]
+DECADES = [0, 1, 2, 3, 5, 7, 10, 30, 100, 300, 1000, 10**4, 10**5, 10**6, 10**7, 10**8, 10**9, 10**12, 10**15, 10**18]
+HALVES = [0.25, 0.5, 1.5, 2.5]  # float dtypes only (exactly representable)
+FIXED_KW = {"mu": 1.25, "gamma": 1.5}  # in-place requests on typed buffers: a float buffer cannot hold a term
+XT = "xct"  # harness target unit with a symbolic scale
+
+
+def degree(eq, da):
+    """degree of the formula in its input: an integer input is only in the claim while input**degree fits its dtype"""
+    if eq == "lorentz" or (eq == "sound_speed" and da == "velocity"):
+        return 2
+    if eq == "effective_temperature" and da == "temperature":
+        return 4
+    return 1
+
+
+def in_domain(eq, da, x_si, K):
+    if eq == "lorentz":
+        return 0 <= x_si <= K["c"] * (1 - 1e-8) if da == "velocity" else x_si >= 1
+    if eq in ("spectral", "compton"):
+        return x_si > 0
+    return x_si >= 0
+
+
+def typed_values(eq, da, sa, dt, K):
+    """in-domain values over many decades that the dtype holds exactly and whose degree-th power it holds too"""
+    dt = np.dtype(dt)
+    deg = degree(eq, da)
+    cand = list(DECADES)
+    if dt.kind == "f":
+        cand = sorted(cand + HALVES)
+        top = 2.0 ** (11 if dt.itemsize == 2 else 24)  # integers up to here are exact
+        cand = [v for v in cand if v <= top and float(v) ** deg <= 1e30]
+    else:
+        top = int(np.iinfo(dt).max)
+        cand = [v for v in cand if v <= top and v ** deg <= top]
+    cand = [v for v in cand if in_domain(eq, da, v * sa, K)]
+    if len(cand) > 5:
+        cand = cand[:2] + [cand[len(cand) // 2]] + cand[-2:]
+    return cand
+
+
+def make_dtype_case(eq, da, db, ua, ub, dt, forms=("array", "scalar")):
+    """the payload is a REAL typed NumPy buffer (integer of any width, float32), array and 0-d quantity: the dtype decides which
+    NumPy loops run (integer multiply / reciprocal / power, casts of out= buffers), which an object-dtype payload cannot show.
+    Values are enumerated (a typed buffer cannot hold a term); what is symbolic is the scale of the target unit (copying forms)
+    and mu, gamma (copying forms)."""
+    dtype = np.dtype(dt)
+    inplace_ok = dtype.itemsize == 8  # narrower buffers are converted in place to float32/float16, whose range the constants exceed
+
+    def h(ctx):
+        mods = ctx.mods
+        unyt = mods["unyt"]
+        K = consts(mods)
+        kw_sym = kwargs_for(ctx, eq)
+        mu, gamma = kw_sym.get("mu"), kw_sym.get("gamma")
+        kw_fix = {k: FIXED_KW[k] for k in EQ_KW.get(eq, [])}
+        sa = float(unyt.Unit(ua).base_value)
+        sb = float(unyt.Unit(ub).base_value)
+        st = ctx.real(XT + "_s", pos=True)
+        reg = ctx.registry([])
+        ctx.add_row(reg, XT, dim_obj(mods, db), st)
+        want_xt = unyt.Unit(XT, registry=reg)
+        for form in forms:
+            vs = typed_values(eq, da, sa, dtype, K)  # never empty: cases() skips the combinations without a value
+            if form == "scalar":
+                vs = [vs[len(vs) // 2]]
+
+            def fresh(vals, registry=None):
+                buf = np.array(vals, dtype=dtype)
+                if form == "scalar":
+                    return unyt.unyt_quantity(buf[0], ua, registry=registry), buf
+                return unyt.unyt_array(buf, ua, registry=registry), buf
+            si_in = [float(v) * sa for v in vs]
+            # ---- copying forms, target unit of ANY positive scale
+            ref = None
+            for e in COPY_ENTRIES:
+                q, buf = fresh(vs, reg)
+                u0 = q.units
+                vals, u, r = run_entry(ctx, q, XT, eq, kw_sym, e)
+                ctx.require(f"returns a value/{e}/{form}", vals is not None and len(vals) == len(vs))
+                if vals is None:
+                    continue
+                ctx.observe(f"{e}/{form}", [y * st for y in vals])
+                ctx.require(f"formula/{e}/{form}", And(*[formula_holds(eq, da, db, xi, y * st, K, mu, gamma) for xi, y in zip(si_in, vals)]),
+                            entry=e, dtype=dt, values=vs)
+                if u is not None:
+                    ctx.require(f"unit/{e}/{form}", And(exact_eq(u.base_value, st), str(u) == XT, u.dimensions == want_xt.dimensions, u.base_offset == 0.0), got=str(u))
+                    ctx.require(f"fresh object/{e}/{form}", r is not q)
+                if ref is None:
+                    ref = vals
+                else:
+                    ctx.require(f"entry points agree/{e}/{form}", all_close(vals, ref))
+                ctx.require(f"input untouched/{e}/{form}", q.dtype == dtype and q.units is u0 and str(q.units) == str(unyt.Unit(ua))
+                            and np.array_equal(np.asarray(q.d).ravel(), buf.ravel()), now=repr(q)[:120])
+            # ---- table target unit: copying reference, then the in-place forms on the typed buffer
+            vi = vs
+            si_i = [float(v) * sa for v in vi]
+            q, buf = fresh(vi)
+            cref = payload(q.to_equivalent(ub, eq, **kw_fix))
+            ctx.observe(f"copy reference/{form}", cref)
+            ctx.require(f"formula/copy reference/{form}", And(*[formula_holds(eq, da, db, xi, y * sb, K, kw_fix.get("mu"), kw_fix.get("gamma"))
+                                                                for xi, y in zip(si_i, cref)]), dtype=dt, values=vi)
+            for e in (INPLACE_ENTRIES if inplace_ok else []):
+                c, buf = fresh(vi)
+                vals, u, r = run_entry(ctx, c, ub, eq, kw_fix, e)
+                ctx.require(f"returns a value/{e}/{form}", vals is not None and len(vals) == len(vi))
+                if vals is None:
+                    continue
+                ctx.observe(f"{e}/{form}", vals)
+                ctx.require(f"in-place is in place/{e}/{form}", r is c)
+                ctx.require(f"in-place == copy numbers/{e}/{form}", all_close(payload(c), cref), entry=e, dtype=dt, values=vi,
+                            inplace=payload(c), copy=cref)
+                ctx.require(f"in-place == copy unit/{e}/{form}", unit_is(ctx, c.units, ub), got=str(c.units))
+                ctx.require(f"formula/{e}/{form}", And(*[formula_holds(eq, da, db, xi, y * sb, K, kw_fix.get("mu"), kw_fix.get("gamma"))
+                                                         for xi, y in zip(si_i, payload(c))]), entry=e, dtype=dt, values=vi)
+            # ---- there and back from the typed input (copying forms)
+            q, buf = fresh(vi)
+            back = q.to_equivalent(ub, eq, **kw_fix).to_equivalent(ua, eq, **kw_fix)
+            ctx.require(f"there-and-back/{form}", And(same_values(eq, da, payload(back), [float(v) for v in vi], sa, K), unit_is(ctx, back.units, ua)),
+                        dtype=dt, values=vi, back=payload(back))
+
+    return Case(f"C09/dtype/{dt}/{eq}/{da}>{db}/{ua}>{ub}", h,
+                bounds="typed buffer with enumerated values; symbolic: scale of the target unit, mu, gamma (copying forms)",
+                budget_s=600, weight=3 if eq in NONLINEAR else 1)
+
+
+def make_symtarget_case(eq, da, db, ua, shape):
+    """the target is a user-defined unit of the right dimension whose scale is a z3 real (> 0): 'whatever units the target is
+    expressed in' for ALL scales at once, copying and in-place forms (an object buffer can hold the rescaled terms).
+    The INPUT unit stays a table unit: it meets the constants' units in a product and sympy cannot cancel a z3 term."""
+    def h(ctx):
+        mods = ctx.mods
+        unyt = mods["unyt"]
+        K = consts(mods)
+        kw = kwargs_for(ctx, eq)
+        mu, gamma = kw.get("mu"), kw.get("gamma")
+        st = ctx.real(XT + "_s", pos=True)
+        reg = ctx.registry([])
+        ctx.add_row(reg, XT, dim_obj(mods, db), st)
+        want = unyt.Unit(XT, registry=reg)
+        X = input_symbols(ctx, eq, da, shape, K)
+        q0, xs, sa = make_quantity(ctx, X, ua, shape)
+        q = ctx.quantity(q0.d, ua, reg)
+        u_before = q.units
+        si_in = [v * sa for v in xs]
+        ref = None
+        for e in COPY_ENTRIES + INPLACE_ENTRIES:
+            c = q.copy() if e in INPLACE_ENTRIES else q
+            vals, u, r = run_entry(ctx, c, XT, eq, kw, e)
+            ctx.require(f"returns a value/{e}", vals is not None and len(vals) == len(xs))
+            if vals is None:
+                continue
+            ctx.observe(e, [y * st for y in vals])
+            ctx.require(f"formula/{e}", And(*[formula_holds(eq, da, db, xi, y * st, K, mu, gamma) for xi, y in zip(si_in, vals)]), entry=e)
+            if u is not None:
+                ctx.require(f"unit/{e}", And(exact_eq(u.base_value, st), str(u) == XT, u.dimensions == want.dimensions, u.base_offset == 0.0), got=str(u))
+            if e in INPLACE_ENTRIES:
+                ctx.require(f"in-place is in place/{e}", r is c)
+            if ref is None:
+                ref = vals
+            else:
+                ctx.require(f"entry points agree/{e}", all_close(vals, ref))
+            ctx.require(f"input untouched/{e}", And(all_exact(payload(q), xs), q.units is u_before))
+
+    return Case(f"C09/symtarget/{eq}/{da}>{db}/{ua}>{XT}/{shape_tag(shape)}", h, bounds="symbolic: value(s), mu, gamma, scale of the target unit",
+                budget_s=1800 if eq in NONLINEAR else 600, weight=20 if eq == "lorentz" else (5 if eq in NONLINEAR else 1))
+
+
 def _cover(A, B):
     """a covering set of (input unit, target unit) pairs: every unit of A is an input and every unit of B a target at least once"""
     n = max(len(A), len(B))
     return [(A[i % len(A)], B[i % len(B)]) for i in range(n)]
+
+
+def history_cases(quick):
+    out = []
+    seen = set()
+
+    def add(eq, steps, k):
+        """the probed direction and units rotate with k so that every direction / unit is met after some history"""
+        perms = list(itertools.permutations(EQ_DIMS[eq], 2))
+        for da, db in ([perms[k % len(perms)]] if quick or len(steps) > 1 else perms[:4]):
+            pairs = _cover(UNITS[da], UNITS[db])
+            ua, ub = pairs[k % len(pairs)]
+            c = make_call_history_case(eq, da, db, ua, ub, tuple(steps))
+            if c.id not in seen:
+                seen.add(c.id)
+                out.append(c)
+
+    for n, eq in enumerate(EQ_DIMS):
+        kinds = kinds_for(eq)
+        # one earlier request, on the same equivalence and on a sibling that shares a member dimension
+        k = n
+        for seq in (eq, SIBLING[eq]):
+            for kind in kinds_for(seq):
+                add(eq, [(kind, seq)], k)
+                k += 1
+        # two earlier requests on the same equivalence: all ordered pairs (quick: all for thermal, a rotating 1/16 slice elsewhere)
+        full2 = quick or eq in ("thermal", "number_density")  # thorough: all 256 ordered pairs for these two, the 49 core pairs elsewhere
+        pairs2 = list(itertools.product(kinds, kinds)) if full2 else list(itertools.product(CORE_KINDS, CORE_KINDS))
+        if quick and eq != "thermal":
+            pairs2 = pairs2[n % 16::16]
+        for k, (k1, k2) in enumerate(pairs2):
+            add(eq, [(k1, eq), (k2, eq)], k + n)
+        # three earlier requests: a failing in-place request first (quick, thermal) / all triples of the core kinds (thorough, linear)
+        if eq == "thermal" or (not quick and eq in ("mass_energy", "number_density")):
+            firsts = ["inplace-refused", "inplace-badkw"] if quick or eq != "thermal" else CORE_KINDS
+            for k, (k1, k2, k3) in enumerate(itertools.product(firsts, CORE_KINDS, CORE_KINDS)):
+                add(eq, [(k1, eq), (k2, eq), (k3, eq)], k)
+    return out
 
 
 def cases(tier, mods):
@@ -614,6 +973,30 @@ def cases(tier, mods):
             ua, ub = _cover(UNITS[da], UNITS[db])[0]
             for vary in kws:
                 out.append(make_history_case(eq, da, db, ua, ub, vary))
+    # ---- call histories: 1, 2 and 3 earlier requests, then the whole battery
+    out += history_cases(quick)
+    # ---- dtype axis
+    check_names(mods, [XT])
+    K = consts(mods)
+    k = 0
+    for eq, dims in EQ_DIMS.items():
+        for da, db in itertools.permutations(dims, 2):
+            pairs = _cover(UNITS[da], UNITS[db])
+            for j, dt in enumerate(TYPED_DTYPES[: 5 if quick else None]):
+                # int64 (what a python int becomes) meets every unit of the cover, the other dtypes rotate through it in the quick tier;
+                # thorough: int64, int32, uint8, float32 meet every unit of the cover, the other five rotate
+                for ua, ub in ([pairs[(j + k) % len(pairs)]] if (quick and dt != "int64") or j >= 4 else pairs):
+                    if typed_values(eq, da, float(mods["unyt"].Unit(ua).base_value), dt, K):  # e.g. no uint8 holds gamma >= 100 % squared
+                        # quick: int64 as array and as 0-d quantity, the other dtypes alternate between the two
+                        forms = ("array", "scalar") if not quick or dt == "int64" else (("array", "scalar")[(j + k) % 2],)
+                        out.append(make_dtype_case(eq, da, db, ua, ub, dt, forms))
+            # ---- target unit of symbolic scale, symbolic payload
+            for j, ua in enumerate(UNITS[da]):
+                if quick and j != k % len(UNITS[da]):
+                    continue
+                for shape in ([shapes[k % 2]] if quick else shapes):
+                    out.append(make_symtarget_case(eq, da, db, ua, shape))
+            k += 1
     # ---- uncovered requests
     for eq in EQ_DIMS:
         for da, uas in ALL_DIM_UNITS.items():
